@@ -7,6 +7,7 @@ import (
 	"errors"
 	"fmt"
 	"io"
+	"math"
 	"net/http"
 	"net/http/httptest"
 	"runtime"
@@ -414,7 +415,7 @@ func C09(r *h.Run) {
 	// so the limit must not be narrowed to 32 bits anywhere; handler side (model cases) and
 	// client side (oracle) ----
 	for _, protoName := range protos {
-		for _, n := range []int{1 << 32, 1<<32 + 100, 1 << 33, 1<<40 + 7, 1<<62 + 1, 1<<31 - 1, 1 << 31, 1<<32 - 1} {
+		for _, n := range []int{1 << 32, 1<<32 + 100, 1 << 33, 1<<40 + 7, 1<<62 + 1, 1<<31 - 1, 1 << 31, 1<<32 - 1, math.MaxInt64, math.MaxInt64 - 1} {
 			for _, algo := range []string{"", "tagA"} {
 				cfg := envCfg{Proto: protoName, Max: n, Algo: algo}
 				p1, p2 := genPayload(rng, 200), genPayload(rng, 3)
